@@ -575,7 +575,8 @@ def run_property(prop, tier, out):
         if member < provs:
             raise ToolError(f"scenario error: only {member} of {provs} proving cases found the member's commitment at its position")
     # negative control: flip one recorded verdict / result and demand a rejection
-    neg = negative_control(prop, wd, rows, tb, kf_names)
+    # (skipped when deviations were reported: the judge demonstrably rejects, and the violation must not be masked)
+    neg = negative_control(prop, wd, rows, tb, kf_names) if not res["dev"] else True
     if neg is False:
         raise ToolError("negative control: the protocol judge accepted a corrupted trace (binding broken)")
     extra = {}
@@ -612,7 +613,7 @@ def negative_control(prop, wd, rows, tb, kf_names):
             rows[i]["fields"] = f
             target = i
             break
-        if prop == "C03" and r["t"] == "recover" and r.get("res") == "ok" and len(r.get("out", [])) == 32:
+        if prop == "C03" and r["t"] == "recover" and r.get("res") == "ok" and len(r.get("out", [])) == 32 and r.get("tag") in ("same-line", "proved-same-line"):
             o = list(r["out"])
             o[0] ^= 1
             rows[i]["out"] = o
